@@ -51,7 +51,10 @@ RULE = ("cases = (schema, count n in {0,1,2,7} or generate_one, stream): schemas
         "type names differently and refer to them by name (5 fixed groups + generated schemas with one definition edited); each yielded value is "
         "checked against ITS schema and each consumer's values against the model on that consumer's draws; "
         "corr:gen-depth = 5 recursive types whose recursive union branch is not the null branch (Expr{arg:[long,Expr]}, Chain, Bush through an "
-        "array, mutual A/B, Opt through a map), streams planned so that the recursive branch is taken k = 1..12, 15, 20 (thorough: ..45) times in a row")
+        "array, mutual A/B, Opt through a map), streams planned so that the recursive branch is taken k = 1..12, 15, 20 (thorough: ..45) times in a row; "
+        "corr:gen-strings = ~3000 (thorough 90000) strings as values, array items, map keys and record / union members under fresh sub-seeds: "
+        "validate + schemaless write + read back, ten draws per string; unplanned randint draws also hit the special results inside their range "
+        "(UTF-8 length boundaries, the surrogate block, integer widths) and random() the neighbourhood of common thresholds")
 TRUSTED = ["random / uuid are replaced by proxies that implement randint, random, choices, getrandbits, uuid4 themselves; "
            "CPython's own derivation of those results from the Mersenne twister is not part of the claim (the theorems hold for every stream)",
            "datetime / decimal / uuid of the standard library compute the logical view a generated value is compared with after reading back",
@@ -117,10 +120,22 @@ def modulus(kind, n):
     return ONE_BITS if kind == "f" else n
 
 
-def fresh(rng, kind, n):
-    """a boundary-biased residue"""
+# results worth hitting whenever a randint range contains them: UTF-8 length boundaries, the surrogate block, integer widths
+SPECIAL_RESULTS = [0, 1, -1, 0x7F, 0x80, 0x7FF, 0x800, 0xD7FF, 0xD800, 0xDBFF, 0xDC00, 0xDFFF, 0xE000, 0xFFFD, 0xFFFF, 0x10000,
+                   (1 << 31) - 1, 1 << 31, -(1 << 31), -(1 << 31) - 1, (1 << 63) - 1, -(1 << 63)]
+
+
+def fresh(rng, kind, n, base=None):
+    """a boundary-biased residue; for randint(base, base + n - 1) also the special results inside the range"""
     if kind == "f":
+        r = rng.random()
+        if r < 0.1:          # the neighbourhood of the usual probability thresholds
+            return G.fbits(rng.choice([0.5, 0.9, 0.95, 0.97, 0.99, 0.999]) + rng.choice([-1, 0, 1]) * 2.0 ** -53)
         return G.fbits(bias(rng, 1 << 53) / float(1 << 53))
+    if base is not None and n > 64 and rng.random() < 0.12:
+        c = [x - base for x in SPECIAL_RESULTS if base <= x < base + n]
+        if c:
+            return rng.choice(c)
     return bias(rng, n)
 
 
@@ -140,7 +155,7 @@ class Source:
         self.rec = []
         self.mismatch = False
 
-    def take(self, kind, n):
+    def take(self, kind, n, base=None):
         """the residue the code receives; what is recorded is an UN-normalised draw D with D mod m = residue (m = the
         range the code asked for), so that the model's own reduction `D mod (its idea of the range)` notices a changed range"""
         if len(self.rec) >= MAX_DRAWS:
@@ -154,7 +169,7 @@ class Source:
             else:
                 self.mismatch = True
         if D is None:
-            D = lift(self.rng, fresh(self.rng, kind, n), m)
+            D = lift(self.rng, fresh(self.rng, kind, n, base), m)
         self.rec.append((kind, n, D))
         return D % m
 
@@ -168,7 +183,7 @@ class RandomProxy:
     def randint(self, a, b):
         if b < a:
             raise ValueError("empty range in randrange(%d, %d)" % (a, b + 1))
-        return a + self._src.take("i", b - a + 1)
+        return a + self._src.take("i", b - a + 1, base=a)
 
     def random(self):
         return G.bits_to_float(self._src.take("f", 0))
@@ -956,6 +971,7 @@ def blame(entry, vals):
     return None
 
 
+SIG_STRING = "C20:generate:string-value:cannot-be-written"
 SIG_ISO = "C20:validate+writer:str-datum-in-union-with-int-date-branch:ValueError"
 SIG_UUID = "C20:writer+reader:str-datum-filed-under-string-uuid-branch-of-union:ValueError-on-read"
 
@@ -969,6 +985,8 @@ def classify(entry, vals, symptom, why):
         # a str generated for another branch (enum symbol, plain string) is filed by the writer under the earlier string-uuid
         # branch (any str validates there); read_uuid then raises
         return SIG_UUID
+    if "UnicodeEncodeError" in (why or ""):
+        return SIG_STRING          # a generated str (value or map key) that has no UTF-8 encoding
     b = blame(entry, vals) if symptom in ("value-not-of-the-type", "does-not-validate") else None
     if symptom == "count":
         return "C20:generate_many:count"
@@ -1026,9 +1044,12 @@ def model_expr(entry, case, rec):
 
 
 def impl_text(case, vals):
-    if case["mode"] == "one":
-        return "G:" + G.show_py(vals[0]) + "|0"
-    return "G:" + G.show_py(list(vals)) + "|0"
+    try:
+        if case["mode"] == "one":
+            return "G:" + G.show_py(vals[0]) + "|0"
+        return "G:" + G.show_py(list(vals)) + "|0"
+    except UnicodeEncodeError:          # a str with a lone surrogate has no UTF-8 form (and no model term)
+        return "G:<a str that cannot be UTF-8 encoded> " + ascii(vals)[:400]
 
 
 def case_json(entry, case, rec):
@@ -1467,8 +1488,8 @@ class TaggedSource(Source):
         super().__init__(rng, None)
         self.tag, self.by_tag = None, {}
 
-    def take(self, kind, n):
-        r = super().take(kind, n)
+    def take(self, kind, n, base=None):
+        r = super().take(kind, n, base)
         self.by_tag.setdefault(self.tag, []).append(self.rec[-1])
         return r
 
@@ -1640,6 +1661,58 @@ def replay_interleave(ctx, c):
     return ok and len(ctx.violations) == before
 
 
+# ------------------------------------------------------------------ corr:gen-strings: volume on the string generator
+def run_strings(ctx):
+    """several thousand generated strings (as values, array items, map keys and values) under fresh sub-seeds: each must be a str that
+    validates and that the binary writer can encode and the reader returns unchanged; the number of draws per string is cross-checked
+    with the model's (ten per string, nothing else)"""
+    import fastavro
+    rng = ctx.rng
+    fams = [("string", 1, 10), ({"type": "array", "items": "string"}, 10, 100), ({"type": "map", "values": "string"}, 20, 200),
+            ({"type": "record", "name": "S3", "fields": [{"name": "a", "type": "string"}, {"name": "b", "type": ["string"]},
+                                                          {"name": "c", "type": {"type": "string"}}]}, 3, 31)]
+    rounds = 6 if ctx.quick() else 60
+    total = 0
+    for rd in range(rounds):
+        sub = _random.Random(rng.getrandbits(64))
+        for raw, per, draws in fams:
+            e = prepare(raw, "strings")
+            n = max(1, (120 if ctx.quick() else 400) // per)
+            case = dict(mode="many", n=n, use_raw=True, schema_arg=e.raw, feed=None)
+            st, vals, rec, mm = run_impl(case, sub)
+            cj = case_json(e, case, rec[:4000])
+            ctx.count("corr:gen-strings", (json.dumps(raw, sort_keys=True), rd, tuple(stream_of(rec[:50]))))
+            if st != "ok":
+                ctx.violation("corr:gen-strings", cj, impl=st, model=None, signature="C20:gen_data:%s" % st.replace("raised:", "raised-"),
+                              found_input=True, detail="generate raised on a string schema")
+                continue
+            total += n * per
+            bad = None
+            for k, v in enumerate(vals):
+                if not shape_ok(v, e.parsed, e.named):
+                    bad = (k, "value-not-of-the-type", "value %d = %r is not a datum of the schema's type" % (k, v))
+                    break
+                fo = io.BytesIO()
+                w = attempt(lambda: (fastavro.validate(v, e.raw), fastavro.schemaless_writer(fo, e.raw, v))[0])
+                if w != ("ok", True):
+                    bad = (k, "cannot-be-written", "validate / schemaless_writer: %r; value %a" % (w, v))
+                    break
+                r = attempt(lambda: fastavro.schemaless_reader(io.BytesIO(fo.getvalue()), e.raw))
+                if r[0] != "ok" or not deep_same(r[1], v):
+                    bad = (k, "read-back-differs", "read back %a for %a" % (r[1], v))
+                    break
+            if bad:
+                # the replay carries exactly the draws of the offending value when the per-value draw count is the expected one
+                ctx.violation("corr:gen-strings", cj, impl=ascii(vals[bad[0]])[:600], model=None,
+                              signature=SIG_STRING if bad[1] == "cannot-be-written" else "C20:generate:string-value:" + bad[1],
+                              found_input=True, detail=bad[2][:600])
+            elif len(rec) != n * draws or any(k not in ("c", "i") for k, _, _ in rec):
+                ctx.violation("corr:gen-strings", cj, impl="%d draws of kinds %s" % (len(rec), sorted({k for k, _, _ in rec})),
+                              model="%d draws (ten letter choices per string)" % (n * draws), signature="C20:model-differs", found_input=False,
+                              detail="the string generator does not consume the draws the model does; every string was written and read back")
+    ctx.notes["strings_generated"] = total
+
+
 def run(ctx):
     import fastavro
     import fastavro.utils as U
@@ -1758,6 +1831,7 @@ def run(ctx):
     # ---- several live generators over schemas that define the same names differently; deep recursion through non-null unions
     run_interleave(ctx, entries, cap)
     run_depth(ctx)
+    run_strings(ctx)
 
 
 def replay(ctx, rep):
